@@ -36,7 +36,7 @@ func inModule(fn *ssa.Function) bool {
 	return strings.HasPrefix(p.Pkg.Path(), modulePrefix) || interpretPkgs[p.Pkg.Path()]
 }
 
-var interpretPkgs = map[string]bool{"container/list": true}
+var interpretPkgs = map[string]bool{"container/list": true, "bytes": true}
 
 type extEntry struct{ f extFn }
 
@@ -65,14 +65,14 @@ func (e *Engine) external1(fn *ssa.Function) extFn {
 	if f, ok := overrides[full]; ok {
 		return f
 	}
+	if f, ok := natives[full]; ok {
+		return f
+	}
 	if inModule(fn) {
 		return nil
 	}
 	if name == "init" {
 		return func(*Engine, *frame, *ssa.Function, []value) value { return nil }
-	}
-	if f, ok := natives[full]; ok {
-		return f
 	}
 	return func(e *Engine, _ *frame, fn *ssa.Function, _ []value) value {
 		e.unsupported("external " + fn.String())
@@ -322,28 +322,6 @@ var natives = map[string]extFn{
 			return tuple{ok, mkError(err.Error())}
 		}
 		return tuple{ok, iface{}}
-	},
-	"(*bytes.Buffer).Grow": func(e *Engine, _ *frame, _ *ssa.Function, a []value) value { return nil },
-	"(*bytes.Buffer).Write": func(e *Engine, _ *frame, _ *ssa.Function, a []value) value {
-		f := bufField(a)
-		cur, _ := (*f).([]value)
-		src := a[1].([]value)
-		e.logStore(f)
-		*f = append(append([]value{}, cur...), src...)
-		return tuple{uint64(len(src)), iface{}}
-	},
-	"(*bytes.Buffer).WriteString": func(e *Engine, _ *frame, _ *ssa.Function, a []value) value {
-		f := bufField(a)
-		cur, _ := (*f).([]value)
-		src := strBytes(a[1])
-		e.logStore(f)
-		*f = append(append([]value{}, cur...), src...)
-		return tuple{uint64(len(src)), iface{}}
-	},
-	"(*bytes.Buffer).Bytes": func(e *Engine, _ *frame, _ *ssa.Function, a []value) value {
-		f := bufField(a)
-		cur, _ := (*f).([]value)
-		return cur
 	},
 	"fmt.Sprintf": func(e *Engine, _ *frame, _ *ssa.Function, a []value) value { return sprintfModel(e, a) },
 	"fmt.Errorf":  func(e *Engine, _ *frame, _ *ssa.Function, a []value) value { return mkError(sprintfModel(e, a).(string)) },
